@@ -34,7 +34,7 @@ CHECKS = {
         LOOP_NOTE,
         "DESIGN.md section 4, C04"),
     "C05": (
-        "property-based testing: exact integer order-statistics reference over injected sample multisets and over samples derived from loop traces; painted-row scan",
+        "property-based testing: exact integer order-statistics reference over injected sample multisets and over samples derived from loop traces; painted-row scan; loop runs with generated non-zero overheads (stored sample = reading - overhead of the sample loop and of the tally bookkeeping)",
         "(a) arbitrary multisets (empty, singleton, ties, > 2^64 ps), sparse allocation tallies and counter values are injected into a real BenchContext and compute_stats / the row painter are judged by an independent reference in integer arithmetic that accepts every sample attaining a tied duration; (b) runs through the real loop, where the samples are re-derived from the trace so the sample -> index -> alloc/counter association is checked end to end. Found and fixed a division by zero / NaN with zero samples. Exploration only.",
         LOOP_NOTE + " Float figures compared with relative tolerance 1e-12.",
         "DESIGN.md section 4, C05"),
@@ -54,7 +54,7 @@ CHECKS = {
         "Same trust base as C06 plus the loop hooks (scripted clock, tally-clear observer).",
         "DESIGN.md sections 3 and 4, C08"),
     "C09": (
-        "property-based testing: scripted mock inner GlobalAlloc (call log = request log, returns identical), global-allocator watch for re-entry/allocation, fresh-thread and TLS-destructor contexts",
+        "property-based testing: scripted mock inner GlobalAlloc (call log = request log, returns identical), global-allocator watch for re-entry/allocation, fresh-thread and TLS-destructor contexts; in the thread-local-destructor context also with the profiler's own thread-local slot torn down before the requests are issued (late priming)",
         "Generated request sequences with valid layouts up to isize::MAX, arbitrary pointers and scripted returns incl. null are issued through AllocProfiler<Mock>; the mock's log must equal the request sequence, every return must be the scripted one, and no call may reach the process allocator from inside a wrapper call; also on a thread whose first action is the call and inside a thread-local destructor. Exploration only.",
         "Trusts the mock (never touches memory). Thread tear-down on Linux ELF TLS only.",
         "DESIGN.md section 4, C09"),
